@@ -11,7 +11,7 @@ import (
 )
 
 var c07Floor = []string{"cte.1", "cte.chain2", "cte.chain3", "cte.twice.join", "cte.twice.union", "cte.twice.insub", "cte.selector", "derived", "derived.where",
-	"subq.nested", "subq.root", "subq.in", "subq.agg", "exists", "exists.outer", "subq.root-correlated", "derived.join", "subq.with", "agg.stages", "inner.agg", "inner.order", "inner.filter", "cte.mixedcase", "exists.outer.marker"}
+	"subq.nested", "subq.root", "subq.in", "subq.agg", "exists", "exists.outer", "subq.root-correlated", "derived.join", "subq.with", "agg.stages", "inner.agg", "inner.order", "inner.filter", "cte.mixedcase", "exists.outer.marker", "exists.sparse", "subq.in.null-left"}
 
 func init() {
 	fw.Register(&fw.Prop{
@@ -671,6 +671,16 @@ func c07Run(c *fw.Case) {
 		}
 
 	case "subq.in":
+		if c.Chance(0.3) {
+			// a NULL (missing) left operand is a member of no list of non-NULL values
+			for _, row := range t.Rows {
+				if c.Chance(0.4) {
+					delete(row, "n1")
+				}
+			}
+			doc = DocOf(t, u)
+			feats = append(feats, "subq.in.null-left")
+		}
 		composed := "SELECT rid FROM t1 WHERE n1 IN (SELECT e FROM arr)"
 		standalone := "SELECT e FROM arr"
 		if c.Chance(0.5) {
@@ -724,6 +734,33 @@ func c07Run(c *fw.Case) {
 			Pools: map[string][]any{"e": {0.0, 2.0, 3.0, 5.0}, "f": {"p", "q", "r"}}}
 		pg := &gen.PredGen{R: c.R, T: inner, MaxDepth: 2, Disable: map[string]bool{"in.subquery": true, "isnull": true, "isnotnull": true, "istrue": true, "isfalse": true, "booleq": true}}
 		p := pg.Gen()
+		if kind == "exists" && c.Chance(0.35) {
+			// elements of one array with different key sets: p is judged on
+			// each element alone, a key one element lacks is NULL for it
+			for _, row := range t.Rows {
+				for _, el := range row["arr"].([]any) {
+					if c.Chance(0.5) {
+						delete(el.(map[string]any), "f")
+					}
+				}
+			}
+			doc = DocOf(t, u)
+			k := gen.NumLit{V: float64(c.Intn(6))}
+			_ = k
+			cmpE := gen.Cmp{L: gen.Operand{Col: "e", IsCol: true}, R: gen.Operand{Lit: float64(c.Intn(6))}, Op: gen.Pick(c.R, []string{">", ">=", "=", "<", "!="})}
+			fNull := gen.IsNull{Col: "f", Neg: c.Chance(0.4)}
+			switch c.Intn(4) {
+			case 0:
+				p = fNull
+			case 1:
+				p = gen.And{A: cmpE, B: fNull}
+			case 2:
+				p = gen.Or{A: fNull, B: cmpE}
+			default:
+				p = gen.And{A: gen.Not{A: gen.IsNull{Col: "f", Neg: !fNull.Neg}}, B: cmpE}
+			}
+			feats = append(feats, "exists.sparse")
+		}
 		if kind == "exists.outer" {
 			op := gen.Pick(c.R, []string{"=", "<", ">", "<=", ">=", "!="})
 			outerCmp := gen.Cmp{L: gen.Operand{Col: "e", IsCol: true}, R: gen.Operand{Col: "n1", IsCol: true}, Op: op}
